@@ -388,6 +388,15 @@ def handle (j : Json) : R Json := do
     match findModule n m with
     | none => throw "judge_call: no such module"
     | some mod => return Json.mkObj [("ok", Json.bool (callWithinLimitsB (mkEnv t .none) mod (← fldStr j "attr") (← fldStr j "v")))]
+  | "serial" =>
+    -- the handler sections of a run with several connections: one request at a time (a run of the change-section
+    -- system restricted to begin / finish)
+    let acts ← (← fldArr j "acts").mapM (fun a => do
+      match ← arr a with
+      | [.str "begin", t] => return (ChangeSection.Act.begin (← t.getNat?) : ChangeSection.Act Unit Unit)
+      | [.str "finish", t] => return ChangeSection.Act.finish (← t.getNat?)
+      | _ => throw s!"bad act {a.compress}")
+    return Json.mkObj [("ok", Json.bool (ChangeSection.run (fun _ _ => none) (ChangeSection.init ()) acts).isSome)]
   | "changerun" =>
     -- the events of the real change path (acquire / merge / call / direct / store / release per thread) replayed on the
     -- change-section system, with the datatype model of C01 as merge function; and every driver call a request caused
